@@ -47,15 +47,20 @@ def static_event(pp, tid, A, rnd):
     z = rnd.choice([0, 1, 2]) if ion == "p" else rnd.choice([1, 2])
     mono = rnd.random() < 0.7
 
+    # every second event: ONE parsed object of the rule form and one of the explicit form serve all queries
+    # (composition first) - a parsed annotation is meant to be reused
+    shared = len(tid) % 2 == 0
+    src_a, src_b = (pp.parse(text), pp.parse(cond)) if shared else (text, cond)
+
     def both(what, kind, fn):
-        oa, a = call(fn, text)
-        ob, b = call(fn, cond)
+        oa, a = call(fn, src_a)
+        ob, b = call(fn, src_b)
         if oa != "ret" or ob != "ret":
             ev["pairs"].append({"what": what + "_raised", "kind": "str", "a": oa, "b": ob})
         else:
             ev["pairs"].append({"what": what, "kind": kind, "a": a, "b": b})
-    both("mass", "fix", lambda t: fix(pp.mass(t, charge=z, ion_type=ion, monoisotopic=mono)))
     both("comp", "str", lambda t: json.dumps(comp8(pp.comp(t, ion_type=ion, charge=z, estimate_delta=True)), sort_keys=True))
+    both("mass", "fix", lambda t: fix(pp.mass(t, charge=z, ion_type=ion, monoisotopic=mono)))
     both("fragment_masses", "fixbag",
          lambda t: [fix(x) for x in sorted(pp.fragment(t, ["b", "y"] if ion == "p" else [ion], [1, 2], monoisotopic=mono, return_type="mass"))])
     both("fragmenter_masses", "fixbag",
@@ -94,8 +99,26 @@ def label_event(pp, tid, A, mono, labelmods):
     plain["isotope"] = []
     o, r = call(lambda: (pp.mass(text, charge=0, monoisotopic=mono, use_isotope_on_mods=labelmods),
                          pp.mass(anngen.render(plain), charge=0, monoisotopic=mono)))
-    return {"tid": tid, "k": "label", "A": A, "mono": mono, "labelMods": labelmods, "out": o,
-            "labelled": fix(r[0]) if o == "ret" else [0, 0], "plain": fix(r[1]) if o == "ret" else [0, 0]}
+    ev = {"tid": tid, "k": "label", "A": A, "mono": mono, "labelMods": labelmods, "out": o,
+          "labelled": fix(r[0]) if o == "ret" else [0, 0], "plain": fix(r[1]) if o == "ret" else [0, 0]}
+    # the label reaches residues and termini, never the charge carriers: for one ion type the shift is the same at
+    # every charge (0, positive, negative)
+    ion = IONS[len(text) % len(IONS)]
+    ptext = anngen.render(plain)
+
+    def g():
+        out = []
+        for z in (0, 1, 2, -1, -2):
+            with warnings.catch_warnings():
+                warnings.simplefilter("ignore")
+                out.append((z, pp.mass(text, charge=z, ion_type=ion, monoisotopic=mono, use_isotope_on_mods=labelmods),
+                            pp.mass(ptext, charge=z, ion_type=ion, monoisotopic=mono)))
+        return out
+    o2, r2 = call(g)
+    ev["ion"] = ion
+    ev["byChargeOut"] = o2
+    ev["byCharge"] = [{"z": z, "labelled": fix(a), "plain": fix(b)} for z, a, b in r2] if o2 == "ret" else []
+    return ev
 
 
 def _job(args):
